@@ -117,6 +117,25 @@ w := 4
 	// one of every kind of statement a thread can be stopped at (for describe,
 	// which pretty prints and serialises the node); none of its variables is
 	// an inject / extract target of the vocabulary
+	// containers which exist when a function is entered and are changed IN PLACE inside it: what the debugger
+	// remembered about the caller's scope at call time must stay what it was (and stay encodable)
+	"alias": {Src: "alias", BP: 7, BP2: 13, Text: `lst := [1, 2]
+plain := [3, [4]]
+mp := {"k" : [5]}
+func ch(y) {
+  lst[0] := {"a" : y}
+  plain[1][0] := 99999999999999999999999999999999999999 * 99999999999999999999999999999999999999 * 99999999999999999999999999999999999999 * 99999999999999999999999999999999999999 * 99999999999999999999999999999999999999 * 99999999999999999999999999999999999999 * 99999999999999999999999999999999999999 * 99999999999999999999999999999999999999 * 99999999999999999999999999999999999999
+  v := y + 1
+  mp.k[0] := {2 : lst}
+  return v
+}
+func outer(x) {
+  w := ch(x)
+  return w + 1
+}
+r := outer(1)
+s := ch(2)
+`},
 	"misc": {Src: "misc", BP: 10, BP2: 26, Text: `import "lib" as lib
 sink s1
   kindmatch ["a.b"],
@@ -160,7 +179,7 @@ len(ll)
 `},
 }
 
-var progNames = []string{"flat", "nest", "hold", "err", "misc"}
+var progNames = []string{"flat", "nest", "hold", "err", "misc", "alias"}
 
 // file served by the import locator
 const libSource = "v := 1\n"
